@@ -604,6 +604,9 @@ func runC13(r *core.Run) {
 		maxFwd, maxRT = math.Max(maxFwd, a.f), math.Max(maxRT, a.rt)
 	}
 	if r.Variant == "" {
+		// the whole workload once more in the GOARCH=386 build of this monitor (see ./check)
+		r.RunVariantChild("arch386@16", 30*time.Minute, false)
+		r.Obs("arch386_child", "run")
 		vs := append([]string{"warm@2", "mutwhite@2", "mutwhite@1"}, burstVariants...)
 		for _, v := range vs {
 			r.RunVariantChild(v, 5*time.Minute, false)
